@@ -25,7 +25,7 @@ func (C11) Info() core.Info {
 	return core.Info{
 		Rule:        "worlds in which 1-2 run-once converters (positional, struct, pointer-struct and built output forms, with and without inputs) sit at a PRNG-chosen position of a conversion chain and feed 1-3 consumers within one call (diamonds). Sequential histories of 2-8 Call / Convert / Redefine / call-of-redefined operations on one or two targets with fresh option values per operation, fault once_first_fails (the first execution returns an error). Concurrent histories: 2-4 simulated caller threads (S2 baton scheduler, seeded preemption at every woven yield point incl. targeted preemption at single sites) whose operations need the same run-once converter. Oracle: the body executes at most once over the world's lifetime; every value a consumer receives from it stems from execution 1; after a failed first execution every operation that reports an injected error reports that same error value. Non-trivial: the run-once party was needed by >=2 operations; distinct = distinct (world shape, event-log hash)",
 		Assumptions: []string{"a use 'after the first' is judged through provenance: tokens minted by the run-once party carry its execution number"},
-		Probes:      []string{"c11_once_needed_ge2_ops", "c11_diamond_within_call", "c11_first_exec_failed", "c11_cached_error_seen", "c11_ptr_struct_once", "c11_redefine_planned", "c11_concurrent_worlds", "c11_threads_overlapped", "s1_nonidentity_perms"},
+		Probes:      []string{"c11_once_needed_ge2_ops", "c11_diamond_within_call", "c11_first_exec_failed", "c11_cached_error_seen", "c11_errors_explained", "c11_ptr_struct_once", "c11_redefine_planned", "c11_concurrent_worlds", "c11_threads_overlapped", "s1_nonidentity_perms"},
 		Real:        realComponents,
 		Simulated:   append(append([]string{}, simComponents...), "S2: simulated caller threads run one at a time under a baton; the PRNG picks who runs at every woven yield point"),
 	}
@@ -149,6 +149,20 @@ func (C11) Gen(r *simrt.RNG, tier string) core.Case {
 		ti := len(w.Parties) - 1
 		base := w.Ops[0].Args
 		n := 2 + r.Intn(3)
+		if len(t.In) > 0 && r.Chance(1, 4) {
+			// the first use of the redefined function fails before the run-once target is
+			// reached (an ordinary converter fails at its first execution); the target then
+			// runs through a direct call; later uses of the redefined function must observe
+			// that execution, not the failure of their own first attempt
+			n = 0
+			w.Parties[5].HasErr = true // the converter that makes the target's input
+			w.Faults = []world.Fault{{Kind: "conv_error", Party: 5, Nth: 1}}
+			w.Ops = nil
+			w.Ops = append(w.Ops, world.Op{Kind: world.OpRedefine, Target: ti, Args: base})
+			rd := len(w.Ops) - 1
+			w.Ops = append(w.Ops, world.Op{Kind: world.OpCallRedef, Redef: rd}, world.Op{Kind: world.OpCall, Target: ti, Args: base}, world.Op{Kind: world.OpCallRedef, Redef: rd}, world.Op{Kind: world.OpCallRedef, Redef: rd})
+			return RCase{W: w}
+		}
 		for i := 0; i < n; i++ {
 			switch r.Intn(4) {
 			case 0:
@@ -293,13 +307,46 @@ func (C11) Run(c core.Case, ctx *core.Ctx) []core.Violation {
 					if res == nil || !res.Returned || res.ErrKind != "injected" {
 						continue
 					}
-					// in this world the run-once party is the only one that fails
+					// (an ordinary party failing within this very operation is judged below)
+					ownFailure := false
+					for i := res.LogFrom; i < res.LogTo; i++ {
+						if rt.Log[i].Failed() && rt.Log[i].Party != pi {
+							ownFailure = true
+						}
+					}
+					if ownFailure {
+						continue
+					}
 					if res.Err != error(firstErr) {
 						add("once-error-not-replayed", opSite(w.Ops[oi].Kind), fmt.Sprintf("schedule %d op %d: the first execution of run-once party %d failed with %q, this operation reports %q", k, oi, pi, firstErr.Error(), trunc(res.Err.Error())))
 					} else if res.LogTo > res.LogFrom || oi > 0 {
 						ctx.St.Inc("c11_cached_error_seen")
 					}
 				}
+			}
+		}
+		// an injected error comes from an execution that failed during this operation or
+		// is the memoised failure of a run-once party's first execution: nothing else is
+		// remembered from one use to the next
+		for oi, res := range rt.Results {
+			if res == nil || !res.Returned || res.ErrKind != "injected" {
+				continue
+			}
+			explained := false
+			for i := res.LogFrom; i < res.LogTo; i++ {
+				if rt.Log[i].Failed() && rt.Log[i].ErrValue() == res.Err {
+					explained = true
+				}
+			}
+			for _, rec := range rt.Log {
+				if rec.N == 1 && rec.Err != nil && rt.Parties[rec.Party].Once && error(rec.Err) == res.Err {
+					explained = true
+				}
+			}
+			if !explained {
+				add("stale-error-of-an-earlier-use", opSite(w.Ops[oi].Kind), fmt.Sprintf("schedule %d op %d: reports %q, which no execution of this operation returned and which is not the memoised result of a run-once function", k, oi, trunc(res.Err.Error())))
+			} else if oi > 0 {
+				ctx.St.Inc("c11_errors_explained")
 			}
 		}
 		for oi, res := range rt.Results {
